@@ -62,3 +62,9 @@ META["C17"] = {
     "note": "Trusts net/http and x/net/http2 as plain peers and the independent decoders; header/trailer names that net/http itself manages and bodiless status codes are outside the domain.",
     "technique": "property-based testing (rapid): round-trip with independent decoder, stateful model-based arbitration check, end-to-end differential observation by plain HTTP peers",
 }
+
+META["C19"] = {
+    "text": "expandRequestData is checked on generated requests and offsets concentrated around zero, every varint boundary of the padding length and the message minimum: exact size on success, rejection only when a brute-force search proves the size unreachable, no other field touched. The sharpness of the limit is checked end to end: the exported reference client against an in-process reference server (3 protocols x 6 compressions, unary and client-stream) and against a plain HTTP responder (Connect unary/stream, gzip or not) with messages of exactly limit-1, limit, limit+1 uncompressed bytes. Exploration by seeded generation with shrinking.",
+    "note": "Trusts connect-go's limit enforcement as pinned; compressible padding under compression; response sizes unreachable because of nested length prefixes are skipped.",
+    "technique": "property-based testing (rapid) with brute-force reachability oracle + end-to-end boundary-value generation",
+}
